@@ -101,25 +101,28 @@ HARNESSES.append(
     dict(name="p5blocks", src="../C02/p5blocks.c", extra_src=["lib/ext2fs/blknum.c", "lib/ext2fs/bitops.c"],
          funcs=["check_block_bitmaps", "print_bitmap_problem", "ext2fs_bg_free_blocks_count", "ext2fs_bg_free_blocks_count_set", "ext2fs_bg_flags_clear",
                 "ext2fs_free_blocks_count_set", "ext2fs_blocks_count", "ext2fs_bitcount"],
-         configs=[{"ANSWER": 1, "NG": 2, "DSZ": 32, "FDB": 1, "LAST": 5, "DISCARD": None},
+         configs=[{"ANSWER": 1, "NG": 2, "DSZ": 32, "FDB": 1, "LAST": 2, "DISCARD": None},
                   {"ANSWER": 1, "NG": 2, "DSZ": 32, "FDB": 0, "LAST": 2, "SECOND": None},
+                  {"ANSWER": 1, "NG": 2, "DSZ": 32, "FDB": 1, "LAST": 5, "DISCARD": None, "_tier": "thorough"},
                   {"ANSWER": 1, "NG": 2, "DSZ": 32, "FDB": 0, "LAST": 2, "_tier": "thorough"},
                   {"ANSWER": 1, "NG": 2, "DSZ": 64, "FDB": 0, "LAST": 8, "DISCARD": None, "_tier": "thorough"},
                   {"ANSWER": 1, "NG": 2, "DSZ": 32, "FDB": 1, "LAST": 5, "SECOND": None, "DISCARD": None, "_tier": "thorough"}],
+         cbmc_flags=["--max-field-sensitivity-array-size", "256"],
          unwind=4, unwindset=P5_UW + ["check_block_bitmaps.0:18", "check_block_bitmaps.1:2", "check_block_bitmaps.2:4"],
-         backends=["default", "kissat"],
+         backends=["default", "kissat"], cap_quick=300,
          bound="2 groups of 8 blocks (the last 5 / 2 long), first data block 1 / 0, every bit of both bitmaps, every descriptor byte, "
                "superblock count, ro_compat and fs->flags symbolic; e2fsck -y, then flush + reload + second run"))
 HARNESSES.append(
     dict(name="p5inodes", src="../C02/p5inodes.c", extra_src=["lib/ext2fs/blknum.c"],
          funcs=["check_inode_bitmaps", "print_bitmap_problem", "ext2fs_bg_free_inodes_count", "ext2fs_bg_free_inodes_count_set", "ext2fs_bg_used_dirs_count_set",
                 "ext2fs_bg_flags_clear"],
-         configs=[{"ANSWER": 1, "NG": 2, "DSZ": 32, "CSUM": 1}, {"ANSWER": 1, "NG": 2, "DSZ": 32, "CSUM": 1, "SECOND": None},
-                  {"ANSWER": 1, "NG": 2, "DSZ": 32, "CSUM": 0, "_tier": "thorough"}, {"ANSWER": 1, "NG": 2, "DSZ": 64, "CSUM": 1, "_tier": "thorough"}],
-         cbmc_flags=["--object-bits", "10"],
+         configs=[{"ANSWER": 1, "NG": 2, "IPG": 4, "DSZ": 32, "CSUM": 1}, {"ANSWER": 1, "NG": 2, "IPG": 4, "DSZ": 32, "CSUM": 1, "SECOND": None},
+                  {"ANSWER": 1, "NG": 2, "IPG": 8, "DSZ": 32, "CSUM": 1, "_tier": "thorough"}, {"ANSWER": 1, "NG": 2, "IPG": 8, "DSZ": 32, "CSUM": 1, "SECOND": None, "_tier": "thorough"},
+                  {"ANSWER": 1, "NG": 2, "IPG": 8, "DSZ": 32, "CSUM": 0, "_tier": "thorough"}, {"ANSWER": 1, "NG": 3, "IPG": 4, "DSZ": 64, "CSUM": 1, "_tier": "thorough"}],
+         cbmc_flags=["--object-bits", "10", "--max-field-sensitivity-array-size", "256"],
          unwind=4, unwindset=P5_UW + ["check_inode_bitmaps.0:18", "check_inode_bitmaps.1:2", "check_inode_bitmaps.2:4"],
-         backends=["default", "kissat"],
-         bound="2 groups of 8 inodes, every bit of inode_used_map / inode_dir_map / fs->inode_map, every descriptor byte, "
+         backends=["default", "kissat"], cap_quick=300,
+         bound="2 groups of 4 inodes (thorough: 8), every bit of inode_used_map / inode_dir_map / fs->inode_map, every descriptor byte, "
                "s_free_inodes_count and fs->flags symbolic; with and without group-descriptor checksums; e2fsck -y, flush + reload, second run"))
 P4_UW = ["main.%d:16" % i for i in range(12)] + ["fix_problem.0:15", "vf_bit.0:15", "ext2fs_unmark_generic_bmap.0:15", "vf_reset.0:15", "e2fsck_pass4.0:15"]
 HARNESSES.append(
